@@ -1,5 +1,6 @@
 import MiniconfVerif.Props.C03
 #print axioms MiniconfVerif.C03.nodes_enumerates_leaves
+#print axioms MiniconfVerif.C03.source_next_enumerates_leaves
 #print axioms MiniconfVerif.C03.yielded_target_is_transcoding
 #print axioms MiniconfVerif.C03.targets_accept
 #print axioms MiniconfVerif.C03.leaves_successor_orbit
